@@ -73,11 +73,14 @@ def run_case(case: dict) -> dict:
         pre.append({"op": "protocol", "steps": gen_protocol(rng, list(net.params)), "n": rng.randint(1, 4)})
     counters[f"prefix:{prefix}"] = 1
     steps = gen_protocol(rng, list(net.params))
-    long_steps = rng.random() < 0.15
+    long_steps = rng.random() < 0.2
     if long_steps:
         # step boundaries at large model times (hundreds to thousands), with requested points a few milliseconds after a switch
-        steps = [(d * 512.0, v) for d, v in steps[:4]]
+        # (a third of them in an experiment that runs for days: 2**15 s is about nine hours)
+        stretch = rng.choice([512.0, 512.0, 32768.0])
+        steps = [(d * stretch, v) for d, v in steps[:4]]
         counters["long_steps"] = 1
+        counters["protocols_longer_than_a_day"] = int(sum(d for d, _ in steps) > 86400.0)
     if "update_parameter" in prefix:
         # a parameter is changed without simulating, and the protocol's first step sets it back to the value it had
         # during the previous integration (bookkeeping that remembers 'the values last simulated with' shows here)
